@@ -126,16 +126,71 @@ def handle_candidate(prop, cfg, exe, plan_path, tmp, seed, summary):
     return ("violation", (path, cls, final["msg"]))
 
 
-def run_config(prop, cfg, exe, seed, budget, nworkers, tmp, runs_cap=10 ** 9):
+def _scan_worker_output(prop, exe, seed, outdir, tag, rc, res):
+    text = open(os.path.join(outdir, "out-%d.txt" % tag), errors="replace").read()
+    last = None
+    for line in text.splitlines():
+        if line.startswith("START "):
+            last = int(line.split()[1])
+        elif line.startswith("CANDIDATE "):
+            kv = dict(t.split("=", 1) for t in line.split()[1:])
+            res["candidates"].append(kv["plan"])
+        elif line.startswith("NONDET "):
+            res["nondet"].append(line)
+    if rc not in (0, 10, 2):
+        # the worker died inside a run: regenerate that plan and treat it like a candidate
+        if last is not None:
+            pp = os.path.join(outdir, "crash-%s-%d.plan" % (prop, last))
+            g = polysim(exe, ["gen", "--prop", prop, "--seed", str(seed), "--start", str(last)])
+            open(pp, "w").write(g.stdout)
+            res["crashes"].append((pp, rc, text[-1500:]))
+        else:
+            res["crashes"].append((None, rc, text[-1500:]))
+    wj = os.path.join(outdir, "worker-%s-%d.json" % (prop, tag))
+    if os.path.exists(wj):
+        try:
+            res["workers"].append(json.load(open(wj)))
+        except Exception:
+            pass
+
+
+def run_config(prop, cfg, exe, seed, budget, nworkers, tmp, runs_cap=10 ** 9, chunk=0):
+    """chunk == 0: nworkers long-lived processes share the run indices round-robin.
+    chunk > 0: a pool of short-lived processes, each executing `chunk` consecutive run indices, so that one run in
+    `chunk` starts from a fresh process image (first-use effects such as lazy initialisation)."""
     outdir = os.path.join(tmp, cfg)
     os.makedirs(outdir, exist_ok=True)
+    res = {"candidates": [], "crashes": [], "nondet": [], "workers": []}
+    if chunk:
+        nchunks = (runs_cap + chunk - 1) // chunk if runs_cap < 10 ** 8 else 10 ** 8
+        t_end = time.time() + budget
+        lock = __import__("threading").Lock()
+        counter = {"next": 0}
+
+        def pool_worker(_):
+            while True:
+                with lock:
+                    c = counter["next"]
+                    if c >= nchunks or time.time() > t_end or len(res["candidates"]) + len(res["crashes"]) >= 4:
+                        return
+                    counter["next"] += 1
+                with open(os.path.join(outdir, "out-%d.txt" % c), "w") as log:
+                    runs = min(chunk, runs_cap - c * chunk)
+                    rc = subprocess.call([exe, "run", "--prop", prop, "--seed", str(seed), "--start", str(c * chunk), "--runs", str(runs), "--tag", str(c),
+                                          "--outdir", outdir, "--data", DATA], stdout=log, stderr=subprocess.STDOUT)
+                with lock:
+                    _scan_worker_output(prop, exe, seed, outdir, c, rc, res)
+
+        with ThreadPoolExecutor(nworkers) as ex:
+            list(ex.map(pool_worker, range(nworkers)))
+        res["fresh_processes"] = counter["next"]
+        return res
     procs = []
     for w in range(nworkers):
         log = open(os.path.join(outdir, "out-%d.txt" % w), "w")
         p = subprocess.Popen([exe, "run", "--prop", prop, "--seed", str(seed), "--runs", str(runs_cap), "--worker", str(w), "--nworkers", str(nworkers),
                               "--budget", "%.1f" % budget, "--outdir", outdir, "--data", DATA], stdout=log, stderr=subprocess.STDOUT)
         procs.append((w, p, log))
-    res = {"candidates": [], "crashes": [], "nondet": [], "workers": []}
     for w, p, log in procs:
         try:
             rc = p.wait(timeout=budget * 6 + 600)
@@ -143,31 +198,7 @@ def run_config(prop, cfg, exe, seed, budget, nworkers, tmp, runs_cap=10 ** 9):
             p.kill()
             rc = -9
         log.close()
-        text = open(os.path.join(outdir, "out-%d.txt" % w), errors="replace").read()
-        last = None
-        for line in text.splitlines():
-            if line.startswith("START "):
-                last = int(line.split()[1])
-            elif line.startswith("CANDIDATE "):
-                kv = dict(t.split("=", 1) for t in line.split()[1:])
-                res["candidates"].append(kv["plan"])
-            elif line.startswith("NONDET "):
-                res["nondet"].append(line)
-        if rc not in (0, 10, 2):
-            # the worker died inside a run: regenerate that plan and treat it like a candidate
-            if last is not None:
-                pp = os.path.join(outdir, "crash-%s-%d.plan" % (prop, last))
-                g = polysim(exe, ["gen", "--prop", prop, "--seed", str(seed), "--start", str(last)])
-                open(pp, "w").write(g.stdout)
-                res["crashes"].append((pp, rc, text[-1500:]))
-            else:
-                res["crashes"].append((None, rc, text[-1500:]))
-        wj = os.path.join(outdir, "worker-%s-%d.json" % (prop, w))
-        if os.path.exists(wj):
-            try:
-                res["workers"].append(json.load(open(wj)))
-            except Exception:
-                pass
+        _scan_worker_output(prop, exe, seed, outdir, w, rc, res)
     return res
 
 
@@ -227,17 +258,20 @@ def main():
     build_s = time.time() - t0
     tmp = tempfile.mkdtemp(prefix="polysim-%s-" % prop)
     violations, known, notes = [], [], []
+    fresh = {}
     workers_all = {}
     harness_fault = None
     try:
         for cfg, share in plan:
             nw = min(nworkers, 8) if cfg == "san" else nworkers      # 8 ASan workers is the knee
+            chunk = 8 if prop == "C20" else 0       # C20: one run in eight starts from a fresh process image
             if tier == "quick" and budget <= 0:
-                res = run_config(prop, cfg, exes[cfg], seed, 240.0, nw, tmp, runs_cap=int(share))      # fixed number of runs; the time limit is a safety net only
+                res = run_config(prop, cfg, exes[cfg], seed, 240.0, nw, tmp, runs_cap=int(share), chunk=chunk)      # fixed number of runs; the time limit is a safety net only
             elif tier == "quick":
-                res = run_config(prop, cfg, exes[cfg], seed, budget / len(plan), nw, tmp)               # POLYSIM_BUDGET given: time-boxed instead
+                res = run_config(prop, cfg, exes[cfg], seed, budget / len(plan), nw, tmp, chunk=chunk)               # POLYSIM_BUDGET given: time-boxed instead
             else:
-                res = run_config(prop, cfg, exes[cfg], seed, budget * share, nw, tmp)
+                res = run_config(prop, cfg, exes[cfg], seed, budget * share, nw, tmp, chunk=chunk)
+            fresh[cfg] = res.get("fresh_processes", nw)
             workers_all[cfg] = res["workers"]
             if res["nondet"]:
                 harness_fault = "non-deterministic run in %s: %s" % (cfg, res["nondet"][0])
@@ -314,6 +348,7 @@ def main():
                 "other_counters": {k: v for k, v in stats.items() if not (k.startswith("seam_") or k.startswith("status_") or k.startswith("fault_") or k.startswith("w2_exit_"))},
                 "per_build_configuration": per_cfg,
                 "determinism_sample": det,
+                "fresh_process_images": fresh,
                 "components": REAL_VS_STUB,
                 "build_info": binfo,
                 "known_findings_reported": [k[1][0].get("id", "?") for k in known],
